@@ -47,6 +47,7 @@ def cmdWorld (j : Json) : R Json := do
     match tag with
     | "setValue" => pure (Op.setValue (← a[1]!.getNat?) (FB.exact (← getF a[2]!)))
     | "setError" => pure (Op.setError (← a[1]!.getNat?) (FB.exact (← getF a[2]!)))
+    | "setRel" => pure (Op.setRel (← a[1]!.getNat?) (FB.exact (← getF a[2]!)))
     | "setCorr" => pure (Op.setCorr (← a[1]!.getNat?) (← a[2]!.getNat?) (FB.exact (← getF a[3]!)))
     | "resetCorr" => pure Op.resetCorr
     | "read" => pure (Op.read (← nodeIdx (← a[1]!.getNat?)))
